@@ -5,8 +5,10 @@ against pytket's own Op.get_unitary(); (2) correspondence of the bug-compatible
 model coq/Quantum/Gates.v with Circuit.eval() on every generated program (and on
 its dagger); (3) property oracles on the implementation's results, independent
 of the model: O_ref (ordered product of the pytket matrices of the boxes),
-O_unitary, O_dagger, O_rewire, refusals.  Known findings F6, F7, F8 are
-recognised as DESIGN 5.3 prescribes (table below)."""
+O_unitary, O_dagger, O_rewire, refusals.  There are no known findings: the former
+F6 (Y), F7 (Ry), F8 (Controlled(g).dagger()) were repaired upstream (fix commits
+283c08a, 648c8a7, a3ece78); their minimal inputs stay in the corpus as regression
+cases and any oracle failure is a VIOLATION."""
 import itertools
 import os
 import random
@@ -17,41 +19,6 @@ import common
 from common import Report
 
 ATOL = 1e-9
-
-# ------------------------------------------------------------------ known findings
-KNOWN = {
-    "F6": "Y.array is the transpose of the Pauli matrix: Y evaluates to -Y (tket Y), "
-          "hence Controlled(Y) to C(-Y)",
-    "F7": "Ry(p) evaluates to tket Ry(-p) (array transposed); Controlled(Ry) likewise",
-    "F8": "Controlled(g).dagger() = Controlled(g.dagger()) copies the raw array and ignores "
-          "g's dagger flag: evaluates like Controlled(g) for g in S, T",
-}
-
-
-def _targets(flat):
-    """(gate1, controlled?) of every one-qubit gate occurring in the layers."""
-    for _, b in flat:
-        if b[0] in (0, 1):
-            yield b, False
-        elif b[0] == 3:
-            yield b[1], True
-
-
-def triggers(flat, oracle):
-    """Ids of the known findings whose trigger predicate matches the flattened circuit."""
-    ids = []
-    if oracle == "O_ref":
-        if any(g[0] == 0 and g[1] == 4 for g, _ in _targets(flat)):
-            ids.append("F6")
-        if any(g[0] == 1 and g[1] == 1 and g[2] % 16 != 0 for g, _ in _targets(flat)):
-            ids.append("F7")
-        if any(c and g[0] == 0 and g[1] in (1, 2) and g[2] == 1 for g, c in _targets(flat)):
-            ids.append("F8")
-    elif oracle == "O_dagger":
-        if any(c and g[0] == 0 and g[1] in (1, 2) for g, c in _targets(flat)):
-            ids.append("F8")
-    return ids
-
 
 # ------------------------------------------------------------------ program builders
 def circ(n, layers):
@@ -98,12 +65,10 @@ def rand_k(rng):
 
 
 def rand_gate1(rng):
-    # Y and Ry (known findings F6, F7) are drawn less often, so that most random
-    # circuits keep an O_ref verdict that does not depend on the model
     if rng.random() < 0.6:
-        g = rng.choices(range(6), [5, 5, 5, 5, 2, 5])[0]
+        g = rng.randrange(6)
         return [0, g, 1 if g in (1, 2, 4) and rng.random() < 0.35 else 0]
-    return [1, rng.choices(range(3), [5, 2, 5])[0], rand_k(rng)]
+    return [1, rng.randrange(3), rand_k(rng)]
 
 
 def rand_scalar(rng):
@@ -207,7 +172,7 @@ CTRL_K = [0, 1, 3, 5, 8, 11, 16, 21, 27, 31, -5, 37]
 def corpus(gi):
     out = []
     add = lambda p: out.append(case("corpus", p))   # noqa: E731
-    # the three minimal finding reproducers first
+    # regression: the minimal inputs of the former findings F6, F7, F8 first
     add(single(gi, Y))
     add(single(gi, [1, 1, 5]))
     add([1, single(gi, [3, S])])
@@ -447,12 +412,6 @@ class Verdicts:
     def ok(self, oracle):
         self.rep.count("oracle:%s:pass" % oracle)
 
-    def known(self, oracle, ids):
-        self.rep.count("oracle:%s:known-finding" % oracle)
-        for fid in ids:
-            self.rep.count("known:" + fid)
-            self.rep.known_finding(fid, KNOWN[fid])
-
     def fail(self, oracle, what, c, impl, model, **more):
         self.rep.count("oracle:%s:FAIL" % oracle)
         self.fails[oracle] = self.fails.get(oracle, 0) + 1
@@ -563,16 +522,12 @@ def run(tier, seed):
             if close(m_impl, ref):
                 ver.ok("O_ref")
             else:
-                ids = triggers(flat, "O_ref")
                 model_fails = m_model is not None and not close(m_model, ref)
-                if ids and gi.same_outcome(impl, model, ATOL) and model_fails:
-                    ver.known("O_ref", ids)
-                else:
-                    ver.fail("O_ref", "Circuit.eval() is not the ordered product of the pytket "
-                             "matrices of its boxes acting on the stated qubits", c, impl, model,
-                             reference=[[round(z.real, 12), round(z.imag, 12)]
-                                        for z in ref.T.flatten()],
-                             triggers=ids, model_fails_too=model_fails)
+                ver.fail("O_ref", "Circuit.eval() is not the ordered product of the pytket "
+                         "matrices of its boxes acting on the stated qubits", c, impl, model,
+                         reference=[[round(z.real, 12), round(z.imag, 12)]
+                                    for z in ref.T.flatten()],
+                         model_fails_too=model_fails)
         # ---- O_unitary
         if boxes and all(gi.is_gate(b) for b in boxes):
             if impl[1][0] == impl[1][1] and close(m_impl @ m_impl.conj().T,
@@ -589,17 +544,11 @@ def run(tier, seed):
                 ver.ok("O_dagger")
             else:
                 mdag = c["model_dag"]
-                ids = triggers(flat, "O_dagger") if flat is not None else []
                 model_fails = (m_model is not None and mdag[0] == 0
                                and not close(gi.out_in(mdag), m_model.conj().T))
-                if ids and dag[0] == 0 and gi.same_outcome(impl, model, ATOL) \
-                        and gi.same_outcome(dag, mdag, ATOL) and model_fails:
-                    ver.known("O_dagger", ids)
-                else:
-                    ver.fail("O_dagger", "eval(c.dagger()) is not the conjugate transpose of "
-                             "eval(c)", c, impl, model, impl_dagger=gi.jsonable(dag),
-                             model_dagger=gi.jsonable(mdag), triggers=ids,
-                             model_fails_too=model_fails)
+                ver.fail("O_dagger", "eval(c.dagger()) is not the conjugate transpose of "
+                         "eval(c)", c, impl, model, impl_dagger=gi.jsonable(dag),
+                         model_dagger=gi.jsonable(mdag), model_fails_too=model_fails)
         # ---- O_rewire
         rw = c["rewire"]
         if rw is not None:
@@ -625,7 +574,8 @@ def run(tier, seed):
         rule="reference table: all 22 tket ops x 32 grid phases; cases: corpus (every single-box "
              "circuit: named gates plain / daggered, Rx Ry Rz CU1 CRz CRx at all 32 grid phases "
              "and some outside, Controlled of every one-qubit gate and its dagger, CZ, SWAP, "
-             "Ket / Bra of all bitstrings <= 3, scalars, sqrt(2 ** k); F6 / F7 / F8 reproducers; "
+             "Ket / Bra of all bitstrings <= 3, scalars, sqrt(2 ** k); the minimal inputs of the "
+             "repaired findings F6 / F7 / F8 as regression cases; "
              "Bell, cup, GHZ, snake, ...), random well-typed circuits on 0..4 qubits with <= 8 "
              "boxes, random dagger / >> / @ combinations (width <= 4), rewire for every ordered "
              "pair a != b < n <= 5 over two-qubit boxes and circuits (square and not), ~15% "
@@ -649,8 +599,8 @@ def run(tier, seed):
             "tensor.Functor's axes bookkeeping (tensordot / moveaxis) is C09's subject; here "
             "evaluation is compared as a whole with the model and with the reference product",
             "the model's rewire covers max(a, b) < len(dom) only (the documented use); "
-            "Controlled of one-qubit targets only (the code raises NotImplementedError otherwise)",
-            "known findings F6, F7, F8 are downgraded only when implementation = bug-compatible "
-            "model, the model fails the same oracle, and the trigger predicate matches",
+            "Controlled of one-qubit targets only (Controlled.__init__ raises for anything else)",
+            "no known findings: F6, F7, F8 were repaired upstream (283c08a, 648c8a7, a3ece78); "
+            "every oracle failure is a violation",
         ],
         checker_cmd="make -C coq Props/C11.vo  (coqc 8.16.1, Print Assumptions parsed)")
